@@ -126,7 +126,7 @@ class C16(Prop):
         "singleLinkage_sizes", "idFilterDigital_spec", "quicksort_permutation", "blosum_formula", "blosum_sum_nonneg",
         "pb_counts_digital", "pb_counts_text", "pb_relisting_digital", "pb_relisting_text", "gsc_sum_nonneg",
         "gsc_identical_rows_fails_at", "blosum_identical_rows", "pairIdMx_spec", "blosum_relisting",
-        "singleLinkage_numbering_not_first_seen", "gsc_relisting_fails_at")]
+        "singleLinkage_numbering_not_first_seen", "gsc_relisting_fails_at", "pbText_is", "pbDigital_is")]
     claimed = True
     technique = ("Lean 4 proof over the exact (Q) instance of a numeric-class-polymorphic executable model of esl_distance/esl_cluster/"
                  "esl_msacluster/esl_quicksort/esl_msaweight/esl_tree(UPGMA) + bit-exact differential correspondence of the Float instance "
@@ -262,7 +262,7 @@ class C16(Prop):
         if n <= 40 and rng.random() < 0.2: ops.append("diffmx")
         if rng.random() < 0.25 and not big:
             ops.append("multi seq=%s maxid=%s" % ("".join(rng.choice("pgb") for _ in range(rng.randrange(2, 5))), dbits(th[1])))
-        ops.append("slink maxid=" + dbits(th[0]))
+        ops.append("slink maxid=" + dbits(th[0]) + (" pre=1" if rng.random() < 0.3 else ""))
         ops.append("blosum maxid=" + dbits(th[rng.randrange(2)]))
         ops.append("pb")
         if mode != "text":
